@@ -12,7 +12,7 @@ from checks.rt_common import COMMON_ASSUMPTIONS
 
 KINDS = {"main": ["errors", "assert", "trunc-outs", "missing-key", "wrong-type", "garbage-outs"],
          "join": ["errors", "assert", "trunc-outs", "missing-key", "wrong-type", "garbage-outs"],
-         "split": ["errors", "assert", "bad-stage-defs", "stale-defs"]}
+         "split": ["errors", "assert", "bad-stage-defs", "stale-defs", "badres-defs"]}
 
 
 def fault_specs(progs, sem, tier, rng):
